@@ -17,6 +17,8 @@ PLAN = {
         "quick": [dict(tool="miri", shards=16, san_cases=5, part="all"), dict(tool="asan", scale=1.0, part="all")],
         "thorough": [dict(tool="miri", shards=16, san_cases=60, part="all"), dict(tool="asan", scale=1.0, part="all")],
     },
+    "C01": {"quick": [dict(tool="tsan", scale=0.3, part="threads", max_schedules=100)],
+            "thorough": [dict(tool="tsan", scale=1.0, part="threads"), dict(tool="miri", shards=8, san_cases=6, part="threads")]},
     "C02": {"quick": [dict(tool="tsan", scale=0.15, part="threads", max_schedules=60)],
             "thorough": [dict(tool="tsan", scale=0.5, part="threads"), dict(tool="miri", shards=16, san_cases=3, part="threads")]},
     "C03": {"quick": [dict(tool="tsan", scale=0.15, part="threads", max_schedules=100)],
